@@ -37,7 +37,11 @@ LIB_FLAGS = {
     "tsan": "-O1 -g1 -DBFL_VERIF -fsanitize=thread -fno-omit-frame-pointer",
     # a release-like build without sanitizers (address reuse, optimisation-dependent paths: DEEPEN.md class j)
     "opt": "-O2 -g0 -DNDEBUG -DBFL_VERIF",
+    # line/branch coverage of the library under the correspondence runs (tools/tiecov.py): which source
+    # lines the tie actually drives.  Selected with BFL_TIECOV=1, which maps every "dbg" harness to it.
+    "cov": "-O0 -g1 -UNDEBUG -DBFL_VERIF --coverage -fprofile-update=atomic",
 }
+TIECOV = os.environ.get("BFL_TIECOV", "") == "1"
 
 
 class BuildError(Exception):
@@ -101,6 +105,8 @@ def _deps_stale(binary, depfile, extra):
 
 def build_harness(name, kind="dbg", extra_flags=(), libs=()):
     """Compile harness/<name>.cpp against the freshly built library; returns the binary path."""
+    if TIECOV and kind == "dbg":
+        kind = "cov"
     lib = build_lib(kind)
     src = VERIF / "harness" / (name + ".cpp")
     # one directory of harness binaries per verif tree: several trees (worktrees of contributors) may
@@ -648,8 +654,11 @@ class Ctx:
             "known_findings_hit": [h["key"] for h in self.known_hits],
             "notes": self.notes,
         }
-        (VERIF / "evidence").mkdir(exist_ok=True)
-        (VERIF / "evidence" / (self.prop + ".json")).write_text(json.dumps(ev, indent=1, default=str) + "\n")
+        # a coverage-instrumented run (tools/tiecov.py) is a measurement of the tie, not a check: its
+        # evidence goes next to the coverage build, never over the evidence of the sanitizer run
+        evdir = (BUILD / "cov" / "evidence") if TIECOV else (VERIF / "evidence")
+        evdir.mkdir(parents=True, exist_ok=True)
+        (evdir / (self.prop + ".json")).write_text(json.dumps(ev, indent=1, default=str) + "\n")
         for h in self.known_hits:
             print("KNOWN-FINDING: property=%s %s" % (self.prop, h["what"]))
         rc = 0
